@@ -144,7 +144,7 @@ class _CrashingFile:
     """Stand-in for the cache file opened for writing: the writer dies (ENOSPC) after `limit` bytes."""
 
     def __init__(self, real, limit):
-        self.real, self.limit, self.done = real, limit, 0
+        self.real, self.limit, self.done, self.raised = real, limit, 0, False
 
     def write(self, data):
         room = self.limit - self.done
@@ -154,6 +154,7 @@ class _CrashingFile:
                 self.done += room
             self.real.flush()
             import errno
+            self.raised = True
             raise OSError(errno.ENOSPC, "injected: No space left on device")
         self.done += len(data)
         return self.real.write(data)
@@ -184,9 +185,12 @@ def _crash_job(job):
     cw.apply({"a": "tick", "d": 5})
     cpath = os.path.abspath(cw.cpath)
 
+    made = []
+
     def hook(path, mode):
         if os.path.abspath(path) == cpath and any(c in mode for c in "wa+"):
-            return _CrashingFile(envsub.REAL["open"](path, mode), n)
+            made.append(_CrashingFile(envsub.REAL["open"](path, mode), n))
+            return made[-1]
         return None
 
     envsub.ENV.open_hook = hook
@@ -197,11 +201,13 @@ def _crash_job(job):
     if os.path.exists(cw.cpath):
         cw.stamp()
     ev3, ex3 = cw.request(p)
-    events = [ev1, {"ev": "rename", "n": "a", "m": "b"}, {"ev": "tick", "d": 5}, ev2,
-              {"ev": "cut", "keep": 0 if n == 0 else 1}, ev3]
+    # the writer died only if the stand-in file actually refused a write (n beyond what was written: no crash happened)
+    crashed = any(cf.raised for cf in made)
+    events = [ev1, {"ev": "rename", "n": "a", "m": "b"}, {"ev": "tick", "d": 5}, ev2] + \
+             ([{"ev": "cut", "keep": 0 if n == 0 else 1}] if crashed else []) + [ev3]
     return {"id": "writer-crash/%s/%s@%d" % (dname, p, n), "init": init, "events": events,
-            "case": {"dir": "crash:" + dname, "proto": p, "kind": "crash", "n": n, "size": size},
-            "extras": [ex1, None, None, ex2, None, ex3]}
+            "case": {"dir": "crash:" + dname, "proto": p, "kind": "crash", "n": n, "size": size, "crashed": crashed},
+            "extras": [ex1, None, None, ex2] + ([None] if crashed else []) + [ex3]}
 
 
 def _any_job(job):
